@@ -515,8 +515,8 @@ package jet
 //@   loop 0 entry [every-yield-argument-is-bound] {C08} i == 0
 //@   loop 1 entry [every-declared-parameter-gets-its-default-unless-bound] {C08} i == 0
 //@   check [every-declared-parameter-is-bound] {C08} !panicking() && (len(blockParam.List) > 0 || len(yieldParam.List) > 0) ==> visits("(*Runtime).newScope", 0) == 1
-//@   callsite (*Runtime).executeList 0 requires [block-body-runs-with-the-yield-context] {C08} list == caller.block.List && st.context == lastret("(*Runtime).evalPrimaryExpressionGroup", 0)
-//@   callsite (*Runtime).executeList 1 requires [block-body-runs-in-the-parameter-scope] {C08} list == caller.block.List && st.context == old(st.context) && ite(len(caller.blockParam.List) > 0 || len(caller.yieldParam.List) > 0, st.scope.parent == old(st.scope), st.scope == old(st.scope))
+//@   callsite (*Runtime).executeList 2 requires [block-body-runs-with-the-yield-context] {C08} list == caller.block.List && st.context == lastret("(*Runtime).evalPrimaryExpressionGroup", 0)
+//@   callsite (*Runtime).executeList 3 requires [block-body-runs-in-the-parameter-scope] {C08} list == caller.block.List && st.context == old(st.context) && ite(len(caller.blockParam.List) > 0 || len(caller.yieldParam.List) > 0, st.scope.parent == old(st.scope), st.scope == old(st.scope))
 //@   loop 0 invariant RtOK(st) && 0 <= i && st.scope.variables != nil && st.scope.parent == old(st.scope) && st.context == old(st.context) && st.content == old(st.content) && st.escapeeWriter.Writer == old(st.escapeeWriter.Writer)
 //@   loop 1 invariant RtOK(st) && 0 <= i && st.scope.variables != nil && st.scope.parent == old(st.scope) && st.context == old(st.context) && st.content == old(st.content) && st.escapeeWriter.Writer == old(st.escapeeWriter.Writer)
 //@   ensures [yield-balanced] SameS(st)
@@ -646,7 +646,7 @@ package jet
 //@   requires t != nil && t.set != nil && t.set.gmx != nil && SetOK(t.set) && w != nil && TplOK(t)
 //@   modifies @Interp, type Runtime.escapeeWriter, type escapeeWriter.set, type scope.blocks, type scope.variables, type scope.parent
 //@   loop 0 invariant [root-walk] t != nil && TplOK(t) && RootOf(t) == RootOf(old(t))
-//@   callsite (*sync.Pool).Put 0 requires [pool-invariant-at-put] p == gaddr(pool_State) && istype(x, "*Runtime") && PoolInv(as(x, "*Runtime"))
+//@   callsite (*sync.Pool).Put * requires [pool-invariant-at-put] p == gaddr(pool_State) && istype(x, "*Runtime") && PoolInv(as(x, "*Runtime"))
 //@   callsite (*Runtime).executeList 0 requires [extends-renders-root-ancestor] list == RootOf(caller.t).Root
 //@   callsite (*Runtime).executeList 0 requires [execution-state-determined-by-inputs] st.scope.blocks == caller.t.processedBlocks && st.scope.variables == caller.variables && st.scope.parent == nil && st.escapeeWriter.set == caller.t.set && st.escapeeWriter.Writer == caller.w && st.content == nil && ite(caller.data != nil, st.context == RvOf(caller.data), !RvValid(st.context))
 //@   callsite (*Runtime).executeList count 1
